@@ -271,19 +271,38 @@ def oracle(seed, tier):
     if cs:
         bin_, rd, w, g, gtype, dim, opts, comps = cs[0]
         w2 = {"version": "1.1", "coordinate system": {"model": "spherical", "depth method": "begin segment"}, "features": []}
-        o = {"x_min": 0, "x_max": 0, "y_min": 0, "y_max": 0, "z_min": 5371000, "z_max": 6371000, "n_cell_x": 2, "n_cell_y": 2, "n_cell_z": 2}
-        r, wp = run_grid(bin_, rd + "_sphere", w2, "sphere", 3, o, 0)
-        vt = os.path.join(rd + "_sphere", "w.vtu")
-        if r.returncode == 0 and os.path.exists(vt):
-            v = parse_vtu(vt); n += 1
-            if any(c < 0 or c >= v["np"] for c in v["data"]["connectivity"]) or len(v["data"]["connectivity"]) != 8 * v["ncell"]:
-                viol.append({"what": "sphere grid: cells reference non-existing nodes", "grid": ["sphere", 3, o]})
-            P = v["data"]["points"]
-            for i in range(v["np"]):
-                rr = math.sqrt(sum(P[3 * i + k] ** 2 for k in range(3)))
-                if not close6(v["data"]["Depth"][i], 6371000 - rr, 6371000) and abs(v["data"]["Depth"][i] - (6371000 - rr)) > 100:
-                    viol.append({"what": "sphere grid: Depth is not outer radius - r at node %d" % i, "grid": ["sphere", 3, o]}); break
-        shutil.rmtree(rd + "_sphere", ignore_errors=True)
+        # hollow shells and the full sphere down to the centre (z_min = 0: the innermost layer is the single point r = 0)
+        for (zmin, ncz, ncx) in ((5371000, 2, 2), (3471000, 3, 2), (0, 1, 3), (0, 3, 2)):
+            o = {"x_min": 0, "x_max": 0, "y_min": 0, "y_max": 0, "z_min": zmin, "z_max": 6371000, "n_cell_x": ncx, "n_cell_y": ncx, "n_cell_z": ncz}
+            sd = rd + "_sphere_%d_%d" % (zmin, ncz)
+            r, wp = run_grid(bin_, sd, w2, "sphere", 3, o, 0)
+            vt = os.path.join(sd, "w.vtu")
+            if r.returncode == 0 and os.path.exists(vt):
+                v = parse_vtu(vt); n += 1
+                def sbad(msg):
+                    viol.append({"what": "sphere grid: " + msg, "grid": ["sphere", 3, o]})
+                if any(c < 0 or c >= v["np"] for c in v["data"]["connectivity"]) or len(v["data"]["connectivity"]) != 8 * v["ncell"]:
+                    sbad("cells reference non-existing nodes")
+                P = v["data"]["points"]
+                notfinite = [k for k in ("points", "Depth", "Temperature") if k in v["data"] and any(not math.isfinite(x) for x in v["data"][k])]
+                if notfinite:
+                    sbad("%s contain values that are not finite numbers" % ", ".join(notfinite))
+                else:
+                    radii = []
+                    for i in range(v["np"]):
+                        rr = math.sqrt(sum(P[3 * i + k] ** 2 for k in range(3)))
+                        radii.append(rr)
+                        if not close6(v["data"]["Depth"][i], 6371000 - rr, 6371000) and abs(v["data"]["Depth"][i] - (6371000 - rr)) > 100:
+                            sbad("Depth is not outer radius - r at node %d" % i); break
+                    # the layers: n_cell_z + 1 radii evenly spaced from z_min to z_max
+                    want = [zmin + (6371000 - zmin) * k / ncz for k in range(ncz + 1)]
+                    off = [rr for rr in radii if min(abs(rr - x) for x in want) > 100]
+                    missing = [x for x in want if not any(abs(rr - x) <= 100 for rr in radii)]
+                    if off or missing:
+                        sbad("node radii are not the %d requested layers %s (%d nodes off a layer, layers without nodes: %s)" % (ncz + 1, want, len(off), missing))
+            else:
+                viol.append({"what": "sphere grid: gwb-grid failed (exit %s) %s" % (r.returncode, (r.stderr or "")[-200:]), "grid": ["sphere", 3, o]})
+            shutil.rmtree(sd, ignore_errors=True)
     return {"violations": trim_violations(viol, 20), "summary": {"cases": n, "violations": len(viol), "nontrivial": nontriv, "grids_with_exact_node_positions": nexact, "grids": len(cs)}, "samples": samples}
 
 
